@@ -391,7 +391,78 @@ func emitScope(o *Out, server string, h hier, level, path, depth, form string) {
 	o.Emit("pf.scope", fmt.Sprintf("%s %s %s %s %s %s", server, level, hx(depth), form, h.sx(), hx(path)), res)
 }
 
+// the principal helper with 0..3 home sets: every requested property with its own value
+func emitPrincipalProps(o *Out, r *RNG) {
+	principal := "/" + r.Pick([]string{"u", "me", "a b"}) + "/"
+	type hs struct{ kind, path string }
+	var sets []hs
+	var opts []webdav.BackendSuppliedHomeSet
+	for _, k := range []string{"cal", "card"} {
+		if r.Chance(75) {
+			p := principal + k + r.Pick([]string{"", "-x", " y"}) + "/"
+			sets = append(sets, hs{k, p})
+		}
+	}
+	if r.Bool() && len(sets) == 2 {
+		sets[0], sets[1] = sets[1], sets[0]
+	}
+	var in []string
+	for _, h := range sets {
+		if h.kind == "cal" {
+			opts = append(opts, caldav.NewCalendarHomeSet(h.path))
+		} else {
+			opts = append(opts, carddav.NewAddressBookHomeSet(h.path))
+		}
+		in = append(in, sx(h.kind, hx(h.path)))
+	}
+	body := `<?xml version="1.0"?><D:propfind xmlns:D="DAV:" xmlns:C="urn:ietf:params:xml:ns:caldav" xmlns:A="urn:ietf:params:xml:ns:carddav"><D:prop><C:calendar-home-set/><A:addressbook-home-set/><D:current-user-principal/><D:resourcetype/><D:displayname/></D:prop></D:propfind>`
+	if r.Chance(30) {
+		body = `<?xml version="1.0"?><D:propfind xmlns:D="DAV:"><D:allprop/></D:propfind>`
+	}
+	res := guard(func() string {
+		req := httptest.NewRequest("PROPFIND", "http://example.com/", strings.NewReader(body))
+		req.URL = &url.URL{Path: principal}
+		req.Header.Set("Content-Type", "application/xml")
+		rec := httptest.NewRecorder()
+		webdav.ServePrincipal(rec, req, &webdav.ServePrincipalOptions{CurrentUserPrincipalPath: principal, HomeSets: opts})
+		if rec.Code != 207 {
+			return itoa(rec.Code)
+		}
+		t, err := treeOfBytes(rec.Body.Bytes())
+		if err != nil || len(t.children) == 0 {
+			return "207 not-well-formed"
+		}
+		var out []string
+		for _, c := range t.children {
+			if !c.elem {
+				continue
+			}
+			pr := parseResponseNode(c)
+			for _, it := range pr.stats[200] {
+				// the value is flattened as {DAV:}href(<text>)
+				if i, j := strings.Index(it[2], "("), strings.LastIndex(it[2], ")"); i >= 0 && j > i {
+					it[2] = it[2][i+1 : j]
+				}
+				switch it[1] {
+				case "calendar-home-set":
+					out = append(out, sx("cal", hx(strings.TrimSpace(it[2]))))
+				case "addressbook-home-set":
+					out = append(out, sx("card", hx(strings.TrimSpace(it[2]))))
+				case "current-user-principal":
+					out = append(out, sx("cup", hx(strings.TrimSpace(it[2]))))
+				}
+			}
+		}
+		sort.Strings(out)
+		return sxl(out)
+	})
+	o.Emit("pf.prin", hx(principal)+" "+sxl(in), res)
+}
+
 func famPfScope(o *Out, r *RNG, thorough bool) {
+	for i := 0; i < 200; i++ {
+		emitPrincipalProps(o, r)
+	}
 	for _, prefix := range []string{"", "/dav", "/a/b"} {
 		h := hier{prefix: prefix, principal: prefix + "/u/", homeSet: prefix + "/u/cal/",
 			colls: []string{prefix + "/u/cal/one/", prefix + "/u/cal/two/", prefix + "/u/cal/empty/"},
